@@ -497,6 +497,21 @@ func genInvRec(g *core.Gen) {
 		size := 3 + r.Intn(g.N(14, 40))
 		tree := relabel(r, randTree(r, size, int(r.Pick(0, 1, 1, 2)), int(r.Pick(0, 0, 100))))
 		ops := randomOrder(r, tree, 0, int(r.Pick(0, 0, 0, 100)), int(r.Pick(90, 100, 100)))
+		if r.Chance(1, 3) {
+			// headers for everything first, data only for some blocks: invalidate / reconsider
+			// then also hit header-only nodes
+			var hops []op
+			for _, id := range topo(tree) {
+				hops = append(hops, op{'h', id})
+			}
+			keep := hops
+			for _, o := range ops {
+				if o.kind != 'h' && o.kind != 'k' && r.Chance(2, 3) {
+					keep = append(keep, o)
+				}
+			}
+			ops = keep
+		}
 		ids := idsOf(tree)
 		k := 1 + r.Intn(4)
 		var done []int
